@@ -1276,7 +1276,12 @@ func childMain() {
 		// every batch has its own generator, so that a batch is
 		// reproduced from (seed, number) alone
 		r := tr.NewRand(seed + uint64(i)*0x9E3779B97F4A7C15)
-		br := runBatch(r, dir, i)
+		var br *batchResult
+		if i%3 == 1 {
+			br = runNameRace(r, dir, i)
+		} else {
+			br = runBatch(r, dir, i)
+		}
 		b, _ := json.Marshal(br)
 		out.Write(b)
 		out.WriteByte('\n')
@@ -1540,6 +1545,225 @@ func runBatch(r *tr.Rand, dir string, round int) *batchResult {
 	}
 	group.Delete(b.name)
 	os.Remove(filepath.Join(dir, b.name+".json"))
+	return res
+}
+
+// runNameRace: joiners and leavers race a goroutine that makes the
+// description unreadable, calls Add (which drops the group if it is empty at
+// that moment) and restores it, or calls Delete as group.Update does for an
+// expired group.  The rules are stated for the group NAME, so:
+//   - a client that was accepted and has not left is a member of the object
+//     that group.Get(name) returns, at every moment (an object with members
+//     is never dropped; an entry step never runs on a dropped object);
+//   - the non-operators that are members at the same time never number more
+//     than max-clients, whichever objects they are in;
+//   - two live members never have the same id;
+//   - while an operator who locked the group stays, no non-operator enters.
+//
+// All four are sound whatever the load: they only use program order of each
+// goroutine and the callback order under Group.mu.
+const evMark = 100
+
+func runNameRace(r *tr.Rand, dir string, round int) *batchResult {
+	d := descCfg{users: baseUsers(), max: r.Range(1, 2)}
+	nJoin := r.Range(3, 6)
+	nFaults := r.Range(15, 40)
+	res := &batchResult{Round: round, Checked: map[string]int{}, Notes: map[string]int{}}
+	res.Config = fmt.Sprintf("namerace,max=%d,joiners=%d,faults=%d", d.max, nJoin, nFaults)
+	b := &batch{w: &world{conc: true}, name: fmt.Sprintf("n%d", round), d: d, res: res,
+		opsEnd: make(chan struct{})}
+	if err := writeDesc(dir, b.name, d); err != nil {
+		panic(err)
+	}
+	fn := filepath.Join(dir, b.name+".json")
+	good := d.json()
+
+	var inside atomic.Int64
+	var idMu sync.Mutex
+	idCount := map[string]int{}
+	start := make(chan struct{})
+	faultTwoThirds := make(chan struct{})
+	joinersDone := make(chan struct{})
+	faultDone := make(chan struct{})
+	var wg, jwg sync.WaitGroup
+	spawn := func(w *sync.WaitGroup, f func(r *tr.Rand)) {
+		rr := tr.NewRand(r.U64())
+		wg.Add(1)
+		if w != nil {
+			w.Add(1)
+		}
+		go func() {
+			defer wg.Done()
+			if w != nil {
+				defer w.Done()
+			}
+			<-start
+			f(rr)
+		}()
+	}
+	// accepted: the checks a live member makes about itself
+	accepted := func(c *fc, r *tr.Rand) {
+		plain := !c.op && !c.sys
+		if plain {
+			b.checked("capacity")
+			if n := inside.Add(1); int(n) > d.max {
+				b.fail("capacity", fmt.Sprintf("%d non-operators are members of the group named %q at the same time (max-clients %d); %q just entered", n, b.name, d.max, c.id))
+			}
+		}
+		idMu.Lock()
+		idCount[c.id]++
+		dup := idCount[c.id] > 1
+		idMu.Unlock()
+		b.checked("unique_ids")
+		if dup {
+			b.fail("unique_ids", fmt.Sprintf("two live members of the group named %q have the id %q", b.name, c.id))
+		}
+		for k := 0; k < 3; k++ {
+			b.checked("registered_group_kept")
+			cur := group.Get(b.name)
+			if cur != c.Group() {
+				what := "a different object"
+				if cur == nil {
+					what = "no group"
+				}
+				b.fail("registered_group_kept", fmt.Sprintf("client %q was accepted and has not left, but the name %q now designates %s: later joins are not evaluated against it", c.id, b.name, what))
+				b.note("orphan")
+				break
+			}
+			if cur.GetClient(c.id) != group.Client(c) {
+				b.fail("registered_group_kept", fmt.Sprintf("accepted client %q is not a member of the group named %q", c.id, b.name))
+				break
+			}
+			yield(r)
+		}
+	}
+	leaving := func(c *fc) {
+		if !c.op && !c.sys {
+			inside.Add(-1)
+		}
+		idMu.Lock()
+		idCount[c.id]--
+		idMu.Unlock()
+		b.leave(c)
+	}
+	for i := 0; i < nJoin; i++ {
+		name := fmt.Sprintf("j%d", i)
+		code := 2 + i%2
+		spawn(&jwg, func(r *tr.Rand) {
+			for k := 400; k > 0; k-- {
+				select {
+				case <-faultDone:
+					k = 0
+					continue
+				default:
+				}
+				yield(r)
+				id := fmt.Sprintf("%s-%d", name, k)
+				if r.Chance(1, 6) {
+					id = "shared"
+				}
+				c := b.join(id, false, code)
+				if c == nil {
+					continue
+				}
+				b.note("nonop-admitted")
+				accepted(c, r)
+				leaving(c)
+				b.note("op-left") // (counts as activity for the non-triviality key)
+			}
+		})
+	}
+	go func() { jwg.Wait(); close(joinersDone) }()
+	// the fault goroutine
+	spawn(nil, func(r *tr.Rand) {
+		defer close(faultDone)
+		for i := 0; i < nFaults; i++ {
+			if i == nFaults*2/3 {
+				close(faultTwoThirds)
+			}
+			switch r.Pick(3, 2, 4) {
+			case 0: // half-written description, seen by an Add, then restored
+				os.WriteFile(fn+".bad", good[:len(good)/2], 0600)
+				n := atomic.AddInt64(&fileSeq, 1)
+				mt := t0.Add(-1000 * time.Hour).Add(time.Duration(n) * time.Second)
+				os.Chtimes(fn+".bad", mt, mt)
+				os.Rename(fn+".bad", fn)
+				yield(r)
+				group.Add(b.name, nil)
+				yield(r)
+				writeDesc(dir, b.name, d)
+				b.note("fault-unreadable")
+			case 1: // removed and restored
+				os.Remove(fn)
+				yield(r)
+				group.Add(b.name, nil)
+				yield(r)
+				writeDesc(dir, b.name, d)
+				b.note("fault-removed")
+			default: // expiry: what group.Update does to an idle group
+				if group.Delete(b.name) {
+					b.note("fault-deleted")
+				}
+			}
+			yield(r)
+		}
+	})
+	// an operator that arrives late, locks the group and stays
+	var op *fc
+	spawn(nil, func(r *tr.Rand) {
+		<-faultTwoThirds
+		for k := 0; k < 200 && op == nil; k++ {
+			op = b.join("the-op", false, 0)
+			yield(r)
+		}
+		if op == nil {
+			return
+		}
+		accepted(op, r)
+		op.Group().SetLocked(true, "m1")
+		b.w.add(logEntry{kind: evMark, c: op, what: "locked"})
+		<-joinersDone
+	})
+	close(start)
+	wg.Wait()
+
+	// quiescence: the operator (if it got in) is the only live member
+	if op != nil {
+		b.checked("registered_group_kept")
+		cur := group.Get(b.name)
+		if cur == nil || cur != op.Group() || cur.GetClient("the-op") != group.Client(op) || cur.ClientCount() != 1 {
+			n := -1
+			if cur != nil {
+				n = cur.ClientCount()
+			}
+			b.fail("registered_group_kept", fmt.Sprintf("at quiescence the only live member %q is not the only member of the group named %q (registered: %v, members %d)", op.id, b.name, cur != nil, n))
+		}
+		// nobody entered between the lock and now
+		lg := b.w.since(0)
+		lockedAt := -1
+		for i, e := range lg {
+			if e.kind == evMark {
+				lockedAt = i
+			}
+			if lockedAt >= 0 && e.kind == evJoined && e.what == "join" && e.c != op && !e.c.op {
+				b.checked("admit_conditions")
+				b.fail("admit_conditions", fmt.Sprintf("non-operator %q entered the group named %q after operator %q, still a member, had locked it", e.c.id, b.name, op.id))
+			}
+		}
+		b.checked("admit_conditions")
+		leaving(op)
+	}
+	b.checked("registered_group_kept")
+	if g := group.Get(b.name); g != nil && g.ClientCount() != 0 {
+		b.fail("registered_group_kept", fmt.Sprintf("%d members left in the group named %q after every client left", g.ClientCount(), b.name))
+	}
+	for _, c := range b.all {
+		if g := c.Group(); g != nil {
+			group.DelClient(c)
+		}
+	}
+	group.Delete(b.name)
+	os.Remove(fn)
 	return res
 }
 
